@@ -547,20 +547,21 @@ func (in *Interp) visitInstr(fr *frame, instr ssa.Instruction) continuation {
 				succ = 0
 			}
 		case *Term:
+			switch in.tryMergeIf(fr, instr, c) {
+			case 1:
+				return kJump
+			case 2:
+				return kReturn
+			}
 			if oc, last := in.switchChain(fr, instr, c); last != nil {
-				// a run of `case v1, v2, ...:` tests with one common target: decide their disjunction once
+				// a run of `case v1, v2, ...:` tests with one common target (that could not be if-converted): decide
+				// their disjunction once
 				if in.decide(oc, "switch-cases") {
 					fr.prevBlock, fr.block = fr.block, fr.block.Succs[0]
 				} else {
 					fr.prevBlock, fr.block = last, last.Succs[1]
 				}
 				return kJump
-			}
-			switch in.tryMergeIf(fr, instr, c) {
-			case 1:
-				return kJump
-			case 2:
-				return kReturn
 			}
 			if in.decide(c, "if") {
 				succ = 0
